@@ -161,6 +161,10 @@ Theorem c01_manifold_sculpting : forall N k D d nb,
 Proof. exact manifold_sculpting_ok. Qed.
 Print Assumptions c01_manifold_sculpting.
 
+Theorem c01_find_neighbors : forall brute N k, 0 <= k -> find_neighbors_model brute N k = Ok.
+Proof. exact find_neighbors_model_ok. Qed.
+Print Assumptions c01_find_neighbors.
+
 (* ---- strand 3, termination ---------------------------------------------------------------- *)
 Theorem c01_kdouble_terminates : forall N k conn,
   1 <= N -> 1 <= k -> conn (N - 1) = true ->
@@ -168,6 +172,12 @@ Theorem c01_kdouble_terminates : forall N k conn,
              Z.min k (N - 1) <= k' <= N - 1.
 Proof. exact kdouble_terminates. Qed.
 Print Assumptions c01_kdouble_terminates.
+
+Theorem c01_kdouble_bounds : forall N k conn,
+  3 <= k < N -> conn (N - 1) = true ->
+  exists keff, kdouble (Z.to_nat N) N k conn = Some keff /\ conn keff = true /\ k <= keff /\ keff < N.
+Proof. exact kdouble_bounds. Qed.
+Print Assumptions c01_kdouble_bounds.
 
 Example c01_kdouble_nonvacuous :
   kdouble (Z.to_nat 20) 20 3 (fun k => 10 <=? k) = Some 12.
